@@ -70,7 +70,10 @@ func cyclicObject(k int) (map[string]interface{}, func() bool) {
 		}
 		cur["next"] = first
 		root["child"] = first
-		return root, func() bool { c, ok := root["child"].(map[string]interface{}); return ok && len(c) == 2 && c["i"] == 0 && len(root) == 2 }
+		return root, func() bool {
+			c, ok := root["child"].(map[string]interface{})
+			return ok && len(c) == 2 && c["i"] == 0 && len(root) == 2
+		}
 	default:
 		n := &cycNode{Name: "n"}
 		n.Next = n
